@@ -340,8 +340,23 @@ namespace nmtools::utils
                 nmtools_cassert ( (nm_size_t)len(t)==(nm_size_t)len(u)
                     , "mismatched dimension"
                 );
+                // when assert is disabled, mismatched length means not equal (and must not be indexed)
+                if ((nm_size_t)len(t)!=(nm_size_t)len(u)) {
+                    return false;
+                }
+                // fixed size index arrays with different length are never equal (and must not be indexed)
+                constexpr auto mismatched_fixed_size = [](){
+                    if constexpr (meta::is_fixed_index_array_v<T> && meta::is_fixed_index_array_v<U>) {
+                        return (nm_size_t)meta::fixed_index_array_size_v<T> != (nm_size_t)meta::fixed_index_array_size_v<U>;
+                    } else {
+                        return false;
+                    }
+                }();
+                if constexpr (mismatched_fixed_size) {
+                    return false;
+                }
                 // prefer fixed size for indexing to allow constant index
-                if constexpr (meta::is_fixed_index_array_v<T>) {
+                else if constexpr (meta::is_fixed_index_array_v<T>) {
                     constexpr auto N = meta::fixed_index_array_size_v<T>;
                     using t_t = meta::get_element_or_common_type_t<T>;
                     using u_t = meta::get_element_or_common_type_t<U>;
@@ -402,9 +417,17 @@ namespace nmtools::utils
                     nmtools_cassert( ((common_t)t_dim == (common_t)u_dim)
                         , "dimension mismatch for isequal"
                     );
+                    // when assert is disabled, mismatched dimension means not equal
+                    if ((common_t)t_dim != (common_t)u_dim) {
+                        return false;
+                    }
                 }
                 auto t_shape = ::nmtools::shape(t);
                 auto u_shape = ::nmtools::shape(u);
+                // same number of elements is not enough, the shape must be equal
+                if (!detail::isequal(t_shape,u_shape)) {
+                    return false;
+                }
                 auto t_indices = ndindex(t_shape);
                 auto u_indices = ndindex(u_shape);
                 // TODO: static assert whenever possible
